@@ -11,6 +11,7 @@ from sim.kernel import K, enc_acquire, enc_expire, enc_nlmsg, _addr_raw
 from sim.monitors import Survival, Wedge, data_plane_probe
 from sim.observe import WireLog, parse_header
 from sim.scenario import execute, replayable
+from checks.c08 import timers_due
 
 PROP = 'C17'
 LEVEL = 'exploration'
@@ -273,6 +274,40 @@ def _execute(scenario, with_hostile=True):
             st = HalfOpenStray()
             w.net.taps.append(st)
             w.monitors.append(st)
+
+        class SessionSurvives:
+            """'Keeps serving other peers correctly afterwards': a datagram nobody authenticated (the hostile source holds no keys) must not
+            end an IKE_SA that has keys and is established with the legitimate peer."""
+            pending = None
+
+            def before_delivery(self, node, data, src, dst, meta):
+                if not str((meta or {}).get('sender', '')).startswith('forge.') or timers_due(node) or node.has_readable() and len(node.udp) > 1:
+                    return
+                if any(s_.queue for s_ in node.kernel.event_socks):
+                    return
+                live = {bytes(sa.my_spi): sa.state.name for sa in node.ike_sas() if sa.ike_sa_keyring is not None and int(sa.state) >= 10
+                        and sa.state.name not in ('DELETED', 'REKEYED', 'DEL_IKE_SA_REQ_SENT', 'DEL_AFTER_REKEY_IKE_SA_REQ_SENT')}
+                if live and sum(len(s_.queue) for s_ in node.udp.values()) == 1:
+                    self.pending = (node.name, live, meta['sender'], bytes(data[:28]))
+
+            def after_step(self, node, cause):
+                p = self.pending
+                if p is None or p[0] != node.name:
+                    return
+                self.pending = None
+                if w.poisoned or node.state != 'running' or node.exited:
+                    return
+                ctx['reach']['hostile_vs_established_judged'] = ctx['reach'].get('hostile_vs_established_judged', 0) + 1
+                now = {bytes(sa.my_spi): sa.state.name for sa in node.ike_sas()}
+                for spi, st in p[1].items():
+                    if now.get(spi) in (None, 'DELETED'):
+                        w.violation(PROP, 'established_session_ended_by_hostile_datagram', {'kind': p[2].split('.', 1)[-1], 'state': st},
+                                    f'{node.name}: IKE_SA {spi.hex()} ({st}, with keys) is gone after one datagram of the hostile source ({p[2]}, header '
+                                    f'{p[3].hex()}), which holds no key of it')
+                        w.poisoned = True
+                        return
+        ss = SessionSurvives()
+        w.monitors.append(ss)
 
         class Zombie:
             def after_step(self, node, cause):
